@@ -375,3 +375,46 @@ M("c15_close_timeout_ignores_zero", ["C15"],
   ("lomond/session.py", "        if close_timeout:\n            sent_close_time", "        if close_timeout is not None:\n            sent_close_time"))
 M("c15_ping_timeout_counts_any_message", ["C15"],
   ("lomond/session.py", "        elif event.name == 'pong':\n            self._on_pong(event)", "        elif event.name in ('pong', 'text'):\n            self._on_pong(event)"))
+
+# ---- C16 -----------------------------------------------------------------
+M("c16_linear_backoff", ["C16"],
+  ("lomond/persist.py", "min(random_wait, 2**retries)", "min(random_wait, 2*retries)"))
+M("c16_no_reset_on_ready", ["C16"],
+  ("lomond/persist.py", "                retries = 0\n", "                pass\n"))
+M("c16_no_cap", ["C16"],
+  ("lomond/persist.py", "min(random_wait, 2**retries)", "2**retries"))
+M("c16_stop_on_connect_fail", ["C16"],
+  ("lomond/persist.py", "            yield event\n        wait_for", "            yield event\n            if event.name == 'connect_fail' and retries > 6:\n                return\n        wait_for"))
+M("c16_backoff_delay_differs", ["C16"],
+  ("lomond/persist.py", "        if exit_event.wait(wait_for):", "        if exit_event.wait(min(wait_for, 60)):"))
+M("c16_ping_timeout_not_passed", ["C16"],
+  ("lomond/persist.py", "poll=poll, ping_rate=ping_rate, ping_timeout=ping_timeout):", "poll=poll, ping_rate=ping_rate):"))
+M("c16_reset_on_connected", ["C16"],
+  ("lomond/persist.py", "            if event.name == 'ready':", "            if event.name in ('ready', 'connected'):"))
+M("c16_two_backoffs_after_reject", ["C16"],
+  ("lomond/persist.py", "        yield events.BackOff(wait_for)\n", "        yield events.BackOff(wait_for)\n        if retries == 3:\n            yield events.BackOff(wait_for)\n"))
+M("c16_retries_start_at_one", ["C16"],
+  ("lomond/persist.py", "    retries = 0\n    random_wait", "    retries = 1\n    random_wait"))
+M("c16_exit_checked_before_backoff", ["C16"],
+  ("lomond/persist.py", "        yield events.BackOff(wait_for)\n        if exit_event.wait(wait_for):\n            break",
+   "        if exit_event.wait(wait_for):\n            break\n        yield events.BackOff(wait_for)"))
+
+# ---- C17 -----------------------------------------------------------------
+M("c17_connect_without_reset", ["C17"],
+  ("lomond/websocket.py", "        self.reset()\n        self.state.session = session = session_class(self)",
+   "        if self.state.session is None or self.state.closed:\n            self.reset()\n        self.state.session = session = session_class(self)"))
+M("c17_stream_shared_across_states", ["C17"],
+  ("lomond/websocket.py", "            self.stream = WebsocketStream()\n", "            self.stream = WebSocket._shared_stream = getattr(WebSocket, '_shared_stream', None) or WebsocketStream()\n"))
+M("c17_class_level_frames", ["C17"],
+  ("lomond/stream.py", "        self._frames = []\n", "        self._frames = WebsocketStream._all_frames\n"),
+  ("lomond/stream.py", "    def __init__(self):\n        self.frame_parser = ClientFrameParser()", "    _all_frames = []\n\n    def __init__(self):\n        self.frame_parser = ClientFrameParser()"))
+M("c17_compression_kept", ["C17"],
+  ("lomond/websocket.py", "        self.state = self.State()\n\n    __iter__ = connect", "        _old = self.state.compression\n        self.state = self.State()\n        self.state.compression = _old\n\n    __iter__ = connect"))
+M("c17_closing_flag_kept", ["C17"],
+  ("lomond/websocket.py", "        self.state = self.State()\n\n    __iter__ = connect", "        _old = self.state.closing\n        self.state = self.State()\n        self.state.closing = _old\n\n    __iter__ = connect"))
+M("c17_sent_close_time_kept", ["C17"],
+  ("lomond/websocket.py", "        self.state = self.State()\n\n    __iter__ = connect", "        _old = self.state.sent_close_time\n        self.state = self.State()\n        self.state.sent_close_time = _old\n\n    __iter__ = connect"))
+M("c17_validator_shared", ["C17"],
+  ("lomond/frame_parser.py", "        self._utf8_validator = Utf8Validator()\n", "        self._utf8_validator = FrameParser._v = getattr(FrameParser, '_v', None) or Utf8Validator()\n"))
+M("c17_session_reused", ["C17"],
+  ("lomond/websocket.py", "        self.state.session = session = session_class(self)", "        self._sess = getattr(self, '_sess', None) or session_class(self)\n        self.state.session = session = self._sess"))
